@@ -93,3 +93,89 @@ Example c09_requested_qos_rules_has_one_length_octet :
   | Some nf => map (fun x => (nf_iei x, nf_fmt x)) (filter (fun x => nf_iei x =? 0x7A) nf) = [(0x7A, mk_wire true false 1 WBuf)]
   | None => False end.
 Proof. vm_compute. reflexivity. Qed.
+
+(* ================================================================================================================
+   Sub-field layer: the accessor methods (getters/setters) of package nasType against the field layouts INSIDE the IE
+   values (TS 24.501 clause 9; Spec/TS24501Fields.v).  Statements only; proofs in Proofs/NasAccProofs.v (reflective,
+   over the descriptors regenerated by `harness gen-nasacc`) and Proofs/NasAccSem.v (generic). *)
+Require Import NasAcc NasAccessors TS24501Fields NasAccConform NasAccCheck NasAccSem NasAccProofs.
+
+(* For every IE type of the 16 NAS messages on the emulator's path (107 types; DNN and "maximum number of supported packet
+   filters" are explicitly left out of the table) and every field of the table (513): the accessor pair the table names
+   exists, was understood by the translator, lies inside the Go container, the getter reads exactly the bits of the field
+   and the setter writes exactly those bits and keeps all others; every accessor of these types is tabulated or explicitly
+   left out -- except exactly the [known_acc_deviations] (findings).
+   Full-strength statement [accessors_ok = true] does not hold on the unchanged tree: see the _refuted theorem below. *)
+Theorem c09_accessors_address_their_fields_partial : accessors_ok_except known_acc_deviations = true.
+Proof. exact accessors_conform. Qed.
+Print Assumptions c09_accessors_address_their_fields_partial.
+
+(* FINDING.  nasType.TMSI5GS.SetAMFSetID (same body in GUTI5G and AdditionalGUTI) masks the second octet with
+   GetBitMask(6, 6) = 0: storing an AMF Set ID clears the AMF Pointer (bits 6-1 of the same octet, TS 24.501 9.11.3.4).
+   Witness: 5G-S-TMSI value f4 ff 3f 00 00 00 01, SetAMFSetID(0) gives f4 00 00 .. (table: f4 00 3f ..), GetAMFPointer 0x3f -> 0. *)
+Theorem c09_set_amf_set_id_keeps_the_amf_pointer_refuted :
+  exists s p, find_acc acc_descs "TMSI5GS" "SetAMFSetID" = Some s /\ find_acc acc_descs "TMSI5GS" "GetAMFPointer" = Some p /\
+    let st := [0xF4; 0xFF; 0x3F; 0; 0; 0; 1] in
+    octets_ok st = true /\ value_fits (FSpan 1 10) st (inl 0) = true /\ acc_get (a_body p) st = Some (inl 0x3F) /\
+    exists st', acc_set (a_body s) st (inl 0) = Some st' /\ acc_get (a_body p) st' = Some (inl 0) /\
+                spec_set (FSpan 1 10) st (inl 0) <> Some st'.
+Proof. exact set_amf_set_id_clears_pointer. Qed.
+Print Assumptions c09_set_amf_set_id_keeps_the_amf_pointer_refuted.
+
+Theorem c09_all_accessors_address_their_fields_refuted : accessors_ok = false.
+Proof. exact accessors_ok_refuted. Qed.
+Print Assumptions c09_all_accessors_address_their_fields_refuted.
+
+(* generic: what the structural check means.  For ALL octet values of the IE value, a conforming getter returns the value
+   the field holds according to the table and a conforming setter stores into exactly that field (for all values that fit) *)
+Theorem c09_conforming_accessors_read_and_write_the_field :
+  forall c k g s, field_conforms c k g s = true ->
+  forall st, octets_ok st = true ->
+    acc_get g st = spec_get k st /\ (forall v, value_fits k st v = true -> acc_set s st v = spec_set k st v).
+Proof. exact accessor_semantics. Qed.
+Print Assumptions c09_conforming_accessors_read_and_write_the_field.
+
+(* ... and the table's store/load: the stored value is read back, the length and every bit outside the field are unchanged *)
+Theorem c09_field_store_then_load :
+  forall k st v st', kind_proved k = true -> octets_ok st = true -> spec_set k st v = Some st' ->
+  spec_get k st' = Some v /\ List.length st' = List.length st /\ octets_ok st' = true /\
+  forall i b, (b < 8)%nat -> in_field k (List.length st) i b = false ->
+    N.testbit (nth i st' 0) (N.of_nat b) = N.testbit (nth i st 0) (N.of_nat b).
+Proof. exact field_store_load. Qed.
+Print Assumptions c09_field_store_then_load.
+
+(* lifted to the 510 conforming accessor pairs of the tree: getter (setter st v) = v, nothing else moves *)
+Theorem c09_accessors_of_the_tree_round_trip :
+  List.length conforming_fields = 510%nat /\
+  forall ty f g s c st v, In (ty, f, g, s, c) conforming_fields -> octets_ok st = true -> value_fits (f_kind f) st v = true ->
+  forall st', acc_set s st v = Some st' ->
+    acc_get g st' = Some v /\ List.length st' = List.length st /\
+    forall i b, (b < 8)%nat -> in_field (f_kind f) (List.length st) i b = false ->
+      N.testbit (nth i st' 0) (N.of_nat b) = N.testbit (nth i st 0) (N.of_nat b).
+Proof. split; [vm_compute; reflexivity|exact conforming_accessors_round_trip]. Qed.
+Print Assumptions c09_accessors_of_the_tree_round_trip.
+
+(* ---- scope and non-vacuity *)
+Example c09_accessor_scope :
+  (List.length acc_messages, List.length acc_types, List.length acc_descs, List.length ts24501_fields,
+   List.length (flat_map ie_fields ts24501_fields), List.length conforming_fields, List.length acc_diffs)
+  = (16, 107, 1034, 105, 513, 510, 3)%nat /\
+  map (fun d => fst d) acc_diffs = known_acc_deviations /\
+  filter (fun a => is_unrecognised (a_body a)) acc_descs
+  = filter (fun a => String.eqb (a_type a) "DNN") acc_descs.
+Proof. split; [vm_compute; reflexivity|]. split; vm_compute; reflexivity. Qed.
+
+(* TS 24.501 9.11.4.7: octet 2 (value octet 0) = uplink, octet 3 (value octet 1) = downlink; the pair is among the
+   conforming ones, the hypotheses of the round-trip theorem are met and distinct values land in distinct octets *)
+Example c09_uplink_downlink :
+  let up := "MaximumDataRatePerUEForUserPlaneIntegrityProtectionForUpLink"%string in
+  let down := "MaximumDataRatePerUEForUserPlaneIntegrityProtectionForDownLink"%string in
+  existsb (fun x => let '(ty, f, _, _, _) := x in String.eqb ty "IntegrityProtectionMaximumDataRate" && String.eqb (f_set f) (String.append "Set" up) &&
+                    match f_kind f with FBits 0 8 1 => true | _ => false end) conforming_fields = true /\
+  existsb (fun x => let '(ty, f, _, _, _) := x in String.eqb ty "IntegrityProtectionMaximumDataRate" && String.eqb (f_set f) (String.append "Set" down) &&
+                    match f_kind f with FBits 1 8 1 => true | _ => false end) conforming_fields = true /\
+  octets_ok [0; 0] = true /\ value_fits (FBits 0 8 1) [0; 0] (inl 0x11) = true /\
+  run_case acc_descs "IntegrityProtectionMaximumDataRate" [0; 0]
+           [(String.append "Set" up, inl 0x11); (String.append "Set" down, inl 0xEE)] [String.append "Get" up; String.append "Get" down]
+  = Some ([0x11; 0xEE], [inl 0x11; inl 0xEE]).
+Proof. cbv zeta. split; [vm_compute; reflexivity|]. split; [vm_compute; reflexivity|]. split; [reflexivity|]. split; vm_compute; reflexivity. Qed.
